@@ -165,6 +165,19 @@ theorem percent_encoding_preserved_partial {β} (c : Int) (html : String) (t : T
       simp [URL.escapedPath, hp, hrp]
     rw [heq, this]
 
+/-- **strip_cut_counts.** The cut that goes with a strip option, for EVERY escaped path `s` (valid or not: a `%` at the
+end, `%zz`, raw bytes) and every count `n`: `dropEscaped n s` is a suffix of `s`, and the prefix cut off stands for
+exactly `n` decoded bytes — all of them when the path has fewer — in the specification's way of counting
+(`C07Spec.decodedCount`, what `c07.esclen` evaluates on the real `escapedLen`). For validly encoded paths
+`dropEscaped_spec` says more (the prefix *decodes* to the first `n` bytes). -/
+theorem strip_cut_counts (n : Nat) (s : Bytes) :
+    ∃ a, s = a ++ dropEscaped n s ∧ decodedCount a = min n (decodedCount s) := dropEscaped_count n s
+
+/-- non-vacuity: `/%73trip/a%2Fb` cut after the six bytes of `/strip`; a broken escape at the end; a count beyond the end -/
+example : dropEscaped 6 "/%73trip/a%2Fb".toUTF8.toList = "/a%2Fb".toUTF8.toList ∧ decodedCount "/%73trip".toUTF8.toList = 6 ∧
+    dropEscaped 3 "/a%2".toUTF8.toList = [] ∧ decodedCount "/a%2".toUTF8.toList = 3 ∧
+    dropEscaped 9 "/a".toUTF8.toList = [] ∧ decodedCount "/a".toUTF8.toList = 2 := by decide +kernel
+
 /-- without options the upstream sees exactly the client's bytes -/
 theorem percent_encoding_identity {β} (c : Int) (html : String) (t : Target) (r : Req β)
     (client p rp : Bytes) (hparse : setPath client = some (p, rp)) (hurl : r.url.path = p ∧ r.url.rawPath = rp)
